@@ -101,7 +101,7 @@ PROPS['C02'] = {
 PROPS['C13'] = {
     'title': 'Affine transforms obey matrix algebra and commute with the algorithms',
     'level': 'proof',
-    'verus': ['c13_affine', 'c13_layer'],
+    'verus': ['c13_affine', 'c13_layer', 'c13_ops'],
     'kani': [
         ('geo', 'c13.rs', r'^c13_k_(inverse_none_iff_singular|inverse_f64_none_iff_singular|builders)$', 'complete', 'quick'),
         ('geo', 'c13.rs', r'^c13_k_(inverse_roundtrip|compose_many|inverse_f64_turn|inverse_f64_scale2)', 'bounded', 'quick'),
@@ -120,7 +120,7 @@ PROPS['C13'] = {
     'undecided_clauses': [
         'commutation of every predicate and measure of the crate with exact similarity maps (only stated as lemmas over the spec functions of C02/C05 where those functions are proved equal to their specs)',
         'AffineTransform::skew: shear shape and fixed origin are proved for whatever values tan returns; that those values are the tangents of the angles is not (trigonometric functions uninterpreted)',
-        'Rotate/Scale/Skew/Translate trait layer (unit c13_layer): WHICH matrix about WHICH origin is proved against abstract AffineOps / Centroid / BoundingRect / matrix constructors; that AffineOps applies the matrix to every coordinate of every geometry type (map_coords) is assumed',
+        'Rotate/Scale/Skew/Translate trait layer (unit c13_layer): WHICH matrix about WHICH origin is proved against abstract AffineOps / Centroid / BoundingRect / matrix constructors; AffineOps = map_coords with apply is proved in unit c13_ops (MapCoords abstract, assumed monotone in the coordinate relation); the per-type map_coords impls are under C19',
         'inverse for general float matrices (rounding); only None <=> singular on the lattice and exact cases',
     ],
 }
